@@ -778,8 +778,11 @@ theorem table_all : table.all entryOK = true :=
 theorem table_conforms : ∀ e ∈ table, entryOK e = true :=
   fun e he => List.all_eq_true.mp table_all e he
 
-def deviating : List Entry :=
+/-- pairs with listed deviations (known findings), each with what is excepted -/
+def deviating : List (List String × Entry) :=
   [
-   ("v21._Constant", Generated.Ctors.v21.f_constant, Generated.Schemas.v21.s_Constant_21)]
+   (["sparse_value"], ("v21._Constant", Generated.Ctors.v21.f_constant, Generated.Schemas.v21.s_Constant_21))]
+
+theorem deviating_conforms : ∀ d ∈ deviating, entryOKExcept d.1 d.2 = true := by decide +kernel
 
 end Generated.Conforms.v21
